@@ -114,3 +114,10 @@ CASES += [
         (_DM3, _DS_OLD, "        dd = numpy.real(self.data)\n        dstrength = numpy.einsum(\"abi,abi->ab\", dd, dd)\n"
                         "        return dstrength[fstate,tstate]\n", 1)]},
 ]
+
+_AB3 = "quantarhei/builders/aggregate_base.py"
+CASES += [
+    {"name": "derived matrix of correlation functions marked as supplied by the user (the repaired defect)", "kind": "mutant", "rule": "C03-I", "edits": [
+        (_AB3, "                # a matrix set by the user is kept)\n                self._has_system_bath_interaction = True\n",
+               "                # a matrix set by the user is kept)\n                self._has_system_bath_interaction = True\n                self._has_egcf_matrix = True\n", 1)]},
+]
